@@ -1,5 +1,6 @@
 //! Data-structure level, model-based checks: C10 (dominance checker), C11 (fringes),
 //! C17 (gap), C18 (cache / dominance stores, sequential and concurrent).
+use crate::wrap::tkey;
 use crate::infra::*;
 use crate::model::*;
 use crate::props::misc::{eval_c10_solver, eval_c11_solver};
@@ -738,7 +739,7 @@ pub fn eval_cache(case: &CacheCase, obs: &mut CaseObs) -> Verdict {
                     match reference.get_mut(&(*depth, *state)) {
                         Some(e) => {
                             overwrites += 1;
-                            if th > *e {
+                            if tkey(&th) > tkey(e) {
                                 *e = th;
                             }
                         }
@@ -863,7 +864,7 @@ fn eval_conc_cache(case: &ConcCacheCase, obs: &mut CaseObs) -> Verdict {
         // oracle
         for key in 0..CACHE_STATES {
             let all: Vec<Threshold> = case.threads.iter().flatten().filter(|x| x.0 == key).map(|x| Threshold { value: x.1, explored: x.2 }).collect();
-            let expect = all.iter().max().copied();
+            let expect = all.iter().max_by_key(|t| tkey(t)).copied();
             let got = cache.get_threshold(&key, 0);
             if got != expect {
                 return Verdict::Fail(format!("after concurrent updates, key {key} holds {:?} but the maximum of all updates is {:?} (an update was lost)", got, expect));
@@ -881,11 +882,11 @@ fn eval_conc_cache(case: &ConcCacheCase, obs: &mut CaseObs) -> Verdict {
                             if !all.contains(t) {
                                 return Verdict::Fail(format!("thread {ti} read threshold {:?} for key {key} which nobody wrote", t));
                             }
-                            if *t < own {
+                            if tkey(t) < tkey(&own) {
                                 return Verdict::Fail(format!("thread {ti} read {:?} for key {key} right after updating it with {:?}: a stored threshold decreased", t, own));
                             }
                             if let Some(l) = last {
-                                if *t < l {
+                                if tkey(t) < tkey(&l) {
                                     return Verdict::Fail(format!("thread {ti} observed the threshold of key {key} decrease from {:?} to {:?}", l, t));
                                 }
                             }
